@@ -204,9 +204,9 @@ func verifC07d() { // a failing dependency of a decorator below an optional cons
 		allAccepted: true, strictDecor: true})
 }
 
-func verifC10e() { // two group names that differ by white space only
+func verifC10e() { // group names that differ by white space, case or a common prefix only
 	verifRunProfile(&vProfile{name: "C10e", clauses: vC10,
-		maxScopes: 1, nRegs: 2, maxParams: 0, maxResults: 1, pForms: 2, rForms: 2, names: 1, groups: true, groupNames: 2,
+		maxScopes: 1, nRegs: 2, maxParams: 0, maxResults: 1, pForms: 2, rForms: 2, names: 1, groups: true, groupNames: 4,
 		faults: 1, nInvokes: 1, invParams: 1})
 }
 
